@@ -154,7 +154,19 @@ func c20Generated(c *Ctx, boost int) {
 	c20RunCases(c, cases)
 	// what the regenerated lock facts say (diagnostics; the obligations themselves are Lean theorems)
 	if bad := c.Drv.Ask("facts.bad"); bad != "0" && bad != "drv-dead" {
+		// say WHICH regenerated fact broke (the obligation itself is a Lean theorem that no longer
+		// elaborates; bin/check reports that too)
 		c.Res.Notes = append(c.Res.Notes, "regenerated lock facts: unguarded/unrecognised: "+c20Trunc(bad))
+		first := strings.Fields(bad)
+		what := "unknown"
+		if len(first) > 1 {
+			what = first[1]
+			if i := strings.IndexByte(what, '('); i > 0 {
+				what = what[:i]
+			}
+		}
+		c.Disagree("C20/lock-facts/"+what, "the lock facts regenerated from the source no longer satisfy the protocol's hypotheses: "+c20Trunc(bad),
+			"theorems all_sites_guarded / lock_order_acyclic / tempfile_excl / goroutines_joined / immutable_written_only_fresh", map[string]any{"note": "no concrete schedule: the hypothesis of the protocol proof failed on the current source", "bad": bad})
 	}
 	if s := c.Drv.Ask("facts.summary"); s != "drv-dead" {
 		c.Res.Notes = append(c.Res.Notes, "lock facts: "+s)
